@@ -418,6 +418,7 @@ fn float_instances(ctx: &Ctx, shard: usize) -> Acc {
 
 fn main() {
     let ctx = Ctx::from_args("C06");
+    ndv_checks::warm_up_f32();
     let acc = ctx.parallel(|shard, nshards| {
         let mut acc = Acc::new();
         let mut t = 0u64;
